@@ -18,12 +18,18 @@ func NewUniverse(maxDepth int, extra bool) *Universe {
 	u.Alphabet = []enc.Component{
 		enc.NewStringComponent(8, "a"),
 		enc.NewStringComponent(8, "b"),
+		// rare third symbol: the value of "a" under another type (a sibling that differs only in
+		// the component type must never be confused with it by a name-keyed table)
+		enc.NewStringComponent(enc.TypeKeywordNameComponent, "a"),
 	}
 	if extra {
 		u.Alphabet = append(u.Alphabet,
 			enc.NewStringComponent(8, "long-component"),
 			enc.NewVersionComponent(1),
 			enc.Component{Typ: 8, Val: []byte{}},
+			// same value bytes under different types: siblings that only differ in the type
+			enc.NewSegmentComponent(1),
+			enc.Component{Typ: 8, Val: []byte{1}},
 		)
 	}
 	return u
